@@ -123,8 +123,8 @@ class Bernoulli(DiscreteRandomVariable):
         self.p = p
 
     def cdf(self, x):
-        if x == 1: return 1
-        if x == 0: return 1 - self.p
+        if x >= 1: return 1
+        if x >= 0: return 1 - self.p
         else: return 0
 
     def pmf(self, x):
